@@ -98,22 +98,18 @@ func ruleReplicaRecordType(c *Ctx) {
 
 		var loopVars []types.Object
 		for p := par[cx]; p != nil; p = par[p] {
-			if rs, ok := p.(*ast.RangeStmt); ok {
-				if rs.Value != nil {
-					if o := identObj(s.Info, rs.Value); o != nil {
-						loopVars = append(loopVars, o)
-					}
+			if li := asLoop(s.Info, p); li != nil {
+				if li.Index != nil {
+					loopVars = append(loopVars, li.Index)
 				}
-				if rs.Key != nil {
-					if o := identObj(s.Info, rs.Key); o != nil {
-						loopVars = append(loopVars, o)
-					}
+				for o := range li.Elems {
+					loopVars = append(loopVars, o)
 				}
-
-				walkAll(rs.Body, func(k ast.Node) bool {
+				// copies of the element / index made inside the body (x := elem)
+				walkAll(li.Body, func(k ast.Node) bool {
 					if as, ok := k.(*ast.AssignStmt); ok && as.Tok == token.DEFINE && len(as.Lhs) == 1 && len(as.Rhs) == 1 {
 						for _, lv := range loopVars {
-							if identObj(s.Info, as.Rhs[0]) == lv {
+							if identObj(s.Info, as.Rhs[0]) == lv || li.isElem(s.Info, as.Rhs[0]) {
 								if o := identObj(s.Info, as.Lhs[0]); o != nil {
 									loopVars = append(loopVars, o)
 								}
